@@ -10,8 +10,8 @@ globals().update(
         trusted=[
             STD_TRUST,
             "composition of the component models: Lexer/Parser (C02), Builder (C07/C14), Generator and PyEq (C20), NumText (number literals) in JaqalModel/Model/Pipeline.lean (`parseProgram`, `roundTrip`, and the token-level generator `toks` / `unbuild`)",
-            "proved: the literal layer completely (C01Literals: every canonical decimal and every integer is written so that the lexer reads the same value back as exactly one token, byte-stable), the token layer (C01_tokens_derive: the token stream of the generated text is derivable to the S-expression the parser must return, hence by C02_complete the parser accepts it with exactly that tree), the composition C01_compose / C01_roundtrip_partial, C01_meaning (via C20_sound)",
-            "kept as named propositions with the missing lemma named in Props/C01.lean: C01_printable_full (every slot of a parser-built circuit has a spelling), C01_lex_gen_full (text layer: lexing the generated text gives exactly `toks c`), C01_rebuild_full (builder layer: rebuilding the un-built S-expression gives an == circuit) — each is exercised on every generated program by the executable `round_trip_layers` operation and by the direct oracles reparse_equal / text_fixpoint / same_meaning / nothing_lost / after_passes / builder_api on the real code",
+            "proved: the literal layer completely (C01Literals: every canonical decimal and every integer is written so that the lexer reads the same value back as exactly one token, byte-stable); layer A (C01_tokens_derive: the generator's tokens derive, in the grammar, the statement tree unbuild c, for every printable circuit — hence parsed back by C02_complete); C01_printable / C01_no_same_kind_nesting / C01_wf for every circuit parse_jaqal_string returns, in any statement order; layer C (C01_rebuild_canonical: the builder maps unbuild c back to EXACTLY c) for programs whose statements come in the generator's order — every generated text is such a program; layer B (C01_lex_gen: lexing the generated text gives those tokens) for every printable LexSafe circuit; the composition C01_roundtrip_canonical",
+            "kept as named propositions in Props/C01.lean, each with the missing lemma named: C01_reorder_full (hoisting lets / the register / aliases / macros of an accepted program into the generator's order does not change what the builder makes — needs acyclicity of the macro table for nestingCheck), C01_lexsafe_full (every parser-produced circuit is LexSafe — false for integer literals beyond CPython's 4300-digit limit, where the real code fails earlier), and C01_roundtrip_full / C01_rebuild_full / C01_lex_gen_full, which follow from those two by proved implications (C01_roundtrip_partial); all layer statements are evaluated in the model on every generated program (driver op round_trip_layers, incl. Cexact) next to the round trip of the real code",
             "floats are modelled by their exact decimal value (DESIGN.md §3.3): literals with ≤ 15 significant digits in the normal range; integral floats ≥ 2^53 become ints through the exact binary value and are sent through the direct oracles only",
         ],
         assumptions=["the model takes autoload_pulses = False with injected or no native gates; pulse imports are outside the round-trip model (C14_precedence covers gate-table precedence)"],
